@@ -306,6 +306,10 @@ def run(ctx):
         d["ok"] += v[0] == "ok"
         d["skipped"] += v[0].startswith("skip:")
     ctx.extra["per_generator"] = per_fn
+    for fn, d in per_fn.items():      # never pass vacuously: some call of every generator must be judged
+        if d["ok"] == 0 and not any(x[0] == fn for x in ctx.violations) and not any(
+                k.split("/")[1] == fn for k in ctx.known_hits):
+            raise core.MachineryError("no call of %s reached a verdict (all %d skipped)" % (fn, d["calls"]))
     nt = set()
     for j, r in zip(jobs, recs):
         key = nontrivial_key(j, r)
